@@ -15,7 +15,7 @@ from vlib.core import Stage, fail
 ID = "C01"
 MANIFEST = {
     "category": "exploration",
-    "text": "Generated-input search: ASTs over all five key kinds with n-ary operator nodes are rendered in 2-3 spellings (letters in both cases, MaKo2022 symbols, Lark-WS whitespace anywhere between tokens, redundant brackets) and parsed; the resulting Lark tree must be some in-order binary bracketing of exactly the AST (brackets > juxtaposition > U > X > O, grouping inside one-operator runs free). Bracket-free mixed chains of up to 12 (thorough 30) atoms get their expected AST by precedence splitting. Bounded by expression size (Earley is cubic), never exhaustive.",
+    "text": "Generated-input search: ASTs over all five key kinds with n-ary operator nodes are rendered in 2-3 spellings (letters in both cases, MaKo2022 symbols, Lark-WS whitespace anywhere between tokens, redundant brackets) and parsed; the resulting Lark tree must be some in-order binary bracketing of exactly the AST (brackets > juxtaposition > U > X > O, grouping inside one-operator runs free). Bracket-free mixed chains of up to 12 (thorough 30) atoms get their expected AST by precedence splitting. One slice is enumerated completely: every operator sequence over {O, X, U, juxtaposition} for bracket-free chains of 2-4 (thorough 2-6) atoms, in every combination of the three spellings per operator, with and without blanks. Apart from that slice the search is bounded by expression size (Earley is cubic) and never exhaustive.",
     "note": "Trusted: the AST matcher and precedence splitter in vlib/ref.py, the renderer in vlib/gen.py, Hypothesis. Size bound 12 atoms (quick) / 30 atoms (thorough).",
     "technique": "property-based testing with a by-construction oracle (AST -> render -> parse -> structural match)",
 }
@@ -94,7 +94,15 @@ def check_nested(case):
     ast = case["ast"]
     flattened = None
     shapes = []
-    for text in case["renderings"]:
+    for index, text in enumerate(case["renderings"]):
+        if index == 0 and case.get("resolve_first"):
+            # ordinary use: the same string goes through the resolver (which replaces time conditions) before it is
+            # parsed on its own; what the condition parser returns for it must not depend on that
+            from ahbicht.expressions.expression_resolver import parse_expression_including_unresolved_subexpressions
+
+            resolved = sut.call(parse_expression_including_unresolved_subexpressions, text)
+            if not resolved.ok:
+                fail("accepted", f"well-formed expression {text!r} was not resolved: {resolved!r}")
         res = sut.call(parse, text)
         if not res.ok:
             fail("accepted", f"well-formed expression {text!r} was not parsed: {res!r}")
@@ -159,7 +167,7 @@ def strategy_nested(tier):
         count = draw(st.integers(2, 3))
         renderings = [gen.render(draw, ast) for _ in range(count - 1)]
         renderings.append(gen.render(draw, ast, spaces=draw(st.booleans()), redundant=False))
-        return {"ast": ast, "renderings": renderings}
+        return {"ast": ast, "renderings": renderings, "resolve_first": draw(st.booleans())}
 
     return build()
 
@@ -175,6 +183,59 @@ def strategy_chain(tier):
     return build()
 
 
+# ------------------------------------------------------- complete enumeration of short bracket-free chains
+
+SMALL = {"quick": 4, "thorough": 6}
+_ATOMS = [["rc", "1"], ["hint", "501"], ["fc", "901"], ["pkg", "12P", "0..1"], ["time", "UB2"], ["rc", "2000"]]
+
+
+def enumerate_small_chains(tier, shard, nshards, seed):  # pylint:disable=unused-argument
+    """every operator sequence over {or, xor, and, then} for chains of 2..N atoms, as one bulk case per sequence"""
+    import itertools
+
+    index = 0
+    for length in range(2, SMALL[tier] + 1):
+        for gaps in itertools.product(ref.KINDS, repeat=length - 1):
+            if index % nshards == shard:
+                yield {"gaps": list(gaps)}
+            index += 1
+
+
+def check_small_chain(case):
+    """all spellings (3 per explicit operator) of one operator sequence, without and with blanks"""
+    import itertools
+
+    parse = _parse()
+    gaps = case["gaps"]
+    atoms = [_ATOMS[i % len(_ATOMS)] for i in range(len(gaps) + 1)]
+    expected = ref.split_by_precedence(atoms, gaps)
+    rendered = [ref.canonical(a) for a in atoms]
+    count = 0
+    mixed = any(a != b for a, b in zip(gaps, gaps[1:]))
+    sample = None
+    for spelling in itertools.product(*[ref.SPELL[g] for g in gaps]):
+        for blank in ("", " "):
+            text = rendered[0]
+            for atom_text, letter in zip(rendered[1:], spelling):
+                text += blank + letter + blank + atom_text
+            res = sut.call(parse, text)
+            replay = {"replay_stage": "chains", "replay_case": {"atoms": atoms, "gaps": gaps, "s": text}}
+            if not res.ok:
+                from vlib.core import Violation
+
+                raise Violation("accepted", f"well-formed chain {text!r} was not parsed: {res!r}", replay)
+            if not ref.match(res.value, expected):
+                from vlib.core import Violation
+
+                raise Violation("grouping", f"chain {text!r} parsed as "
+                                f"{ref.canonical(ref.tree_to_ast(res.value, False) or ['rc', '?'])!r}, precedence says "
+                                f"{ref.canonical(expected)!r}", replay)  # fmt: skip
+            count += 1
+            sample = text
+    return {"_bulk": {"evaluations": count, "nontrivial": count if mixed else 0,
+                      "samples": [{"s": sample, "expected": ref.canonical(expected)}] if mixed else []}}  # fmt: skip
+
+
 STAGES = [
     Stage(name="nested", kind="hyp", check=check_nested, classify=classify_nested, strategy=strategy_nested,
           budget={"quick": 250, "thorough": 2500}, key=lambda c: c["renderings"], floors={"mixed-adjacent": 0.25},
@@ -182,4 +243,6 @@ STAGES = [
     Stage(name="chains", kind="hyp", check=check_chain, classify=classify_chain, strategy=strategy_chain,
           budget={"quick": 250, "thorough": 2500}, key=lambda c: c["s"], floors={"mixed-adjacent": 0.5},
           sample=lambda c: {"s": c["s"], "expected": ref.canonical(ref.split_by_precedence(c["atoms"], c["gaps"]))}),
+    Stage(name="small-chains", kind="enum", check=check_small_chain, classify=lambda c, i: ([f"len={len(c['gaps']) + 1}"], True),
+          enumerate=enumerate_small_chains, exhaustive=True),
 ]  # fmt: skip
